@@ -1553,5 +1553,28 @@ def rule_r(repo, chk):
     chk.floor('C01.r', n, 2, '(children.index(<token>) on nodes of known type)')
 
 
+def rule_s(repo, chk):
+    chk.clause('C01.s', 'optional values of the signature/keyword helpers are not used as if they were there: (1) in CallDetails.calculate_index '
+                        'the typed key (None for `**<expression>` and bare stars) reaches str.startswith / == only when the argument carries no star '
+                        '(`star_count` false) - Signature.index and repr() read it; (2) in keywords.imitate_pydoc the unpacking of the pydoc topic '
+                        '(None for True/False/None and symbols without a topic) is covered by a TypeError handler or a test of the value')
+    f = repo.find(HELPERS, 'CallDetails.calculate_index')
+    uses = [c for c in calls_in(f, 'startswith') if c.args and norm(c.args[0]) == 'key_start']
+    chk.floor('C01.s', len(uses), 1, 'startswith(key_start) in calculate_index')
+    for u in uses:
+        w = gate(f, u, lambda e, pol: (not pol) and norm(e) == 'star_count')
+        chk.ob('C01.s', w is None, u, '`%s` is evaluated only for an argument without a star (key_start is a str there)' % short(u), w or '')
+    g = repo.find('jedi.api.keywords', 'imitate_pydoc')
+    unp = [st for st in stmts_in(g, ast.Assign) if isinstance(st.targets[0], ast.Tuple) and isinstance(st.value, ast.Name)]
+    chk.floor('C01.s', len(unp), 1, 'the unpacking of the topic in imitate_pydoc')
+    for st in unp:
+        hs = [h for t in enclosing_handlers(st, g) for h in t.handlers if handler_types(h) & {'TypeError', 'Exception', 'BaseException', '*'}]
+        v = st.value.id
+        w = None if hs else gate(g, st, lambda e, pol: (isinstance(e, ast.Call) and call_name(e) == 'isinstance' and norm(e.args[0]) == v and pol and 'tuple' in norm(e.args[1]))
+                                 or (isinstance(e, ast.Compare) and norm(e.left) == v and isinstance(e.ops[0], ast.IsNot) and pol and norm(e.comparators[0]) == 'None' and False))
+        chk.ob('C01.s', bool(hs) or w is None, st, '`%s` (None or an alias string for some keywords) is unpacked under `except TypeError` or an isinstance(.., tuple) test' % short(st),
+               w or '')
+
+
 RULES = [('C01.a', rule_a), ('C01.b', rule_b), ('C01.c', rule_c), ('C01.d', rule_d), ('C01.e', rule_e), ('C01.f', rule_f),
-         ('C01.g', rule_g), ('C01.h', rule_h), ('C01.i', rule_i), ('C01.j', rule_j), ('C01.k', rule_k), ('C01.l', rule_l), ('C01.m', rule_m), ('C01.n', rule_n), ('C01.o', rule_o), ('C01.p', rule_p), ('C01.q', rule_q), ('C01.r', rule_r)]
+         ('C01.g', rule_g), ('C01.h', rule_h), ('C01.i', rule_i), ('C01.j', rule_j), ('C01.k', rule_k), ('C01.l', rule_l), ('C01.m', rule_m), ('C01.n', rule_n), ('C01.o', rule_o), ('C01.p', rule_p), ('C01.q', rule_q), ('C01.r', rule_r), ('C01.s', rule_s)]
